@@ -3,7 +3,7 @@ CONSTANTS
     Cfgs <- McCfgs
     Ctors <- McCtors
     Layouts <- McLayouts
-    MaxOps = 5
+    MaxOps = 4
     MaxBlocks = 3
     MaxDepth = 2
     MaxFail = 1
